@@ -81,7 +81,24 @@ class Mesh:
     def __init__(self, fname, clause):
         self.fname, self.clause = fname, clause
 
+    MESHES = ([2, 3, 4], [1, 3, 2], [2, 2, 3], [3, 1, 2], [1, 1, 1], [4, 2, 1], [1, 2, 5], [3, 3, 3])
+
     def __call__(self, ob, tier, seed):
+        try:
+            return self.prove(ob, tier, seed)
+        except Exception as e:  # noqa: BLE001  the traced code left the modelled subset: the clause is evaluated natively on a few meshes
+            for nk in self.MESHES:
+                wit = dict(fname=self.fname, clause=self.clause, nk=nk)
+                try:
+                    ok, info = self.replay(wit)
+                except Exception as e2:  # noqa: BLE001
+                    ok, info = True, dict(nk=nk, raised=f"{type(e2).__name__}: {e2}")
+                if ok:
+                    return Result(REFUTED, backend="native-contract-evaluation", witness=wit, replayed=True, replay_info=info,
+                                  detail=f"{self.fname}.{self.clause} fails natively for the mesh {nk}: {info} (symbolic trace left the subset: {type(e).__name__}: {e})")
+            return Result(UNDECIDED, backend="engine-A", detail=f"outside subset: {type(e).__name__}: {e}")
+
+    def prove(self, ob, tier, seed):
         C, n, rows, ld, seen = _setup()
         f = ld.get("eminus.kpoints", self.fname)
         nk = np.array(n, dtype=object)
@@ -551,3 +568,59 @@ def _register_paths():
 
 
 _register_paths()
+
+
+# -------------------------------------------------------------------------------------------------
+# the cell of a KPoints object created from a lattice name and a lattice constant
+# -------------------------------------------------------------------------------------------------
+
+
+class NamedLatticeCell:
+    """EXHAUSTIVE over the lattice names of eminus.data (finite) x three lattice constants: KPoints(lattice, a) with a scalar a describes the cell
+    a * LATTICE_VECTORS[lattice] (None: the unit vectors of that lattice), a 3x3 matrix is taken as it is; meshes and band paths built from it satisfy
+    k . a_i = 2 pi kappa_i with the rows a_i of THAT cell."""
+
+    def problems(self):
+        import eminus
+        from eminus.data import LATTICE_VECTORS
+        from eminus.kpoints import KPoints
+
+        eminus.config.backend = "numpy"
+        eminus.config.verbose = "critical"
+        bad, n = [], 0
+        for lat, lv in LATTICE_VECTORS.items():
+            lv = np.asarray(lv, dtype=float)
+            for a in (None, 1, 2.5, 10.2631, 3.0 * lv + 0.01 * np.arange(9).reshape(3, 3)):
+                n += 1
+                cell = lv if a is None else (a * lv if np.ndim(a) == 0 else np.asarray(a))
+                try:
+                    kp = KPoints(lat, a)
+                    kp.kmesh = [2, 3, 2]
+                    kp.gamma_centered = False
+                    kp.build()
+                    k, kappa, got = np.asarray(kp.k, float), np.asarray(kp.k_scaled, float), np.asarray(kp.a, float)
+                except Exception as e:  # noqa: BLE001
+                    bad.append(dict(lattice=lat, a=str(a), raised=f"{type(e).__name__}: {e}"))
+                    continue
+                if got.shape != (3, 3) or np.abs(got - cell).max() > 1e-12:
+                    bad.append(dict(lattice=lat, a=str(a)[:40], cell_of_the_object=got.tolist(), expected=cell.tolist()))
+                elif np.abs(k @ cell.T - 2 * np.pi * kappa).max() > 1e-10:
+                    bad.append(dict(lattice=lat, a=str(a)[:40], k_dot_a_minus_2pi_kappa=float(np.abs(k @ cell.T - 2 * np.pi * kappa).max())))
+        return bad, n
+
+    def __call__(self, ob, tier, seed):
+        try:
+            bad, n = self.problems()
+        except Exception as e:  # noqa: BLE001
+            bad, n = [dict(raised=f"{type(e).__name__}: {e}")], 0
+        if bad:
+            return Result(REFUTED, backend="exhaustive-native", witness=bad[0], replayed=True, replay_info=dict(failing=bad[:5]), detail=f"KPoints(lattice, a): {bad[0]}")
+        return Result(DISCHARGED, backend="exhaustive-native", stats=dict(cases=n), detail=f"{n} (lattice name, cell size) cases")
+
+    def replay(self, wit):
+        bad, n = self.problems()
+        return bool(bad), dict(failing=bad[:5])
+
+
+register(Obligation(name="C15.KPoints.cell_of_named_lattice", prop=PROP, engine="B", bounded=True, functions=["eminus.kpoints:KPoints.__init__", "eminus.kpoints:kpoint_convert"], run=NamedLatticeCell(),
+                    doc="BOUNDED (every lattice name x five cell sizes): KPoints(lattice, a) describes the cell a * LATTICE_VECTORS[lattice]; k . a_i = 2 pi kappa_i for that cell"))
